@@ -242,8 +242,8 @@ impl Property for C17 {
         "C17"
     }
     fn rule(&self) -> &'static str {
-        "case = abstract LP/MIP model (<=6 columns, <=5 rows of types E/L/G, RHS incl. on the objective row, positive/negative RANGES, integer-marker blocks, one bound spec per column out of {none, UP, negative UP, LO, LO+UP, FX, MI, PL, FR, BV, LI, UI, MI+UP}, either sense, objective row named OBJ or differently) rendered by an independent writer in a tape-chosen layout (3/5-field lines, 1-4 leading blanks, tabs, comments, blank lines, OBJSENSE inline / own line / absent, number formats, plain / gzip reader / gzip file) | one injected error (undeclared row, unknown row/bound/marker/sense keyword, unknown section, unparsable number per section); \
-         oracle = the abstract model: matching by name, exact polynomials, value domains; non-trivial = >=2 row types and >=2 distinct bound specs, or an error case; distinct = sha256(file text)"
+        "case = abstract LP/MIP model (<=6 columns, <=5 rows of types E/L/G, RHS incl. on the objective row, positive/negative RANGES, integer-marker blocks, one bound spec per column out of {none, UP, negative UP, LO, LO+UP, FX, MI, PL, FR, BV, LI, UI, MI+UP}, either sense, objective row named OBJ or differently) rendered by an independent writer in a tape-chosen layout (3/5-field lines, 1-4 leading blanks, tabs, comments, blank lines, OBJSENSE inline / own line / absent, number formats incl. decimals that are not dyadic, explicit zero entries, numeric-looking names, comments that look like content, plain / gzip reader / gzip file, gzip header with optional fields) | one injected error (undeclared row, unknown row/bound/marker/sense keyword, unknown section, unparsable number per section); \
+         oracle = the abstract model: matching by name, exact polynomials with every file number expected verbatim (nearest double; one rounding allowed only for the computed end of a ranged row), value domains; non-trivial = >=2 row types and >=2 distinct bound specs, or an error case; distinct = sha256(file text)"
     }
     fn required_labels(&self) -> Vec<String> {
         let mut v: Vec<String> = ["row=E", "row=L", "row=G", "range+@E", "range-@E", "range+@L", "range-@L", "range+@G", "range-@G", "5-field", "objsense-own-line", "objsense-absent", "foreign-objective-name", "obj-constant", "gzip", "tabs", "comments", "integer-marker", "objsense-gap", "row-named-like-range-twin", "numeric-looking-column-name", "numeric-looking-row-name", "explicit-zero-entry", "column-with-only-zero-entries", "comments-that-look-like-content", "gzip-header-with-optional-fields", "ranged-row-with-decimal-numbers"].iter().map(|s| s.to_string()).collect();
